@@ -18,7 +18,8 @@ RULE = ('all sequences over the 15 outcome kinds up to length 3 (3615, '
 ASSUMPTIONS = ['world hooks report facts truthfully, in program order']
 FLOORS = {'episodes_with_test': 1000, 'episodes_without_test': 50,
           'mirror_checked': 1000, 'nontrivial_episodes': 500,
-          'unit_inner_tests': 300}
+          'unit_inner_tests': 300,
+          'layers_that_got_their_per_test_hooks_in_setUp': 300}
 BATCH_TIMEOUT = 300
 
 KINDS = ['pass', 'fail', 'error', 'setup_error', 'teardown_error',
@@ -210,6 +211,8 @@ def run_case(case):
     counters['unit_inner_tests'] = len({
         e['id'] for e in w.events if e['k'] == 'test.setUp' and
         '.UnitS.' in e['id']})
+    counters['layers_that_got_their_per_test_hooks_in_setUp'] = sum(
+        1 for e in w.events if e['k'] == 'layer.late_hooks')
     hook_layers = sum(1 for ls in spec['layers']
                       if 'testSetUp' in ls['hooks'] or
                       'testTearDown' in ls['hooks'])
